@@ -174,6 +174,13 @@ impl Report {
         }
     }
 
+    /// Append to the enumeration rule (parts added after the first registration of a check).
+    pub fn rule_add(&self, more: &str) {
+        let mut r = self.rule.lock().unwrap();
+        r.push_str(" PLUS: ");
+        r.push_str(more);
+    }
+
     pub fn set_rule(&self, r: &str) {
         *self.rule.lock().unwrap() = r.to_string();
     }
